@@ -35,7 +35,8 @@ SnapOK(lnk, inodes) ==
     IF lnk[n] = 0 THEN n \notin DOMAIN Rec.fs
     ELSE /\ n \in DOMAIN Rec.fs
          /\ Cls(Rec.fs[n][2]) = Cls(inodes[lnk[n]].len)
-         /\ (inodes[lnk[n]].len = NChunks => Rec.fs[n][1] = inodes[lnk[n]].src)
+         /\ (inodes[lnk[n]].len = NChunks =>
+                 Rec.fs[n][1] = (IF inodes[lnk[n]].src = "foreign" THEN "other" ELSE inodes[lnk[n]].src))
 NoStrangers == \A n \in DOMAIN Rec.fs : n \in Names
 
 \* ---- law layer (needs only Call/Return/Crash records) ------------------------
@@ -76,6 +77,7 @@ Act(r) ==
     [] r.ev = "Replace" -> Replace(p) /\ r.src = Tmp(p) /\ r.dst = Key(p)
     [] r.ev = "Return"  -> Return(p) /\ r.res = res[p]
     [] r.ev = "Crash"   -> Crash(p)
+    [] r.ev = "Plant"   -> Plant(r.name, IF r.complete = 1 THEN NChunks ELSE 1)
     [] r.ev = "PartialWrite" ->
          \* k of the pickle's bytes reached the inode, then the writer was killed
          /\ pc[p] = "write" /\ woff[p] = 0
